@@ -4,6 +4,7 @@ package e2res
 
 import (
 	"context"
+	"errors"
 	"fmt"
 	"iter"
 	"math"
@@ -244,6 +245,8 @@ type callRec struct {
 	panicMsg string
 	panicAt  string
 	afterOp  int // index of the op (mode S)
+	// cancelled: the caller's context was (being) cancelled during the call
+	cancelled bool
 }
 
 // observe splits a result into per-key observations.
@@ -337,6 +340,10 @@ func judgeHistory(res *core.Result, prop string, calls []callRec, resps []respRe
 		c := &calls[ci]
 		if c.panicMsg != "" {
 			res.Fail(prop, "panic", c.panicAt+": "+normMsg(c.panicMsg), "call %d: %s", ci, c.panicMsg)
+			continue
+		}
+		if c.err != nil && c.cancelled && (errors.Is(c.err, context.Canceled) || errors.Is(c.err, context.DeadlineExceeded)) {
+			res.Probe("caller_gave_up")
 			continue
 		}
 		if c.err != nil {
@@ -492,6 +499,9 @@ type SeqPlan struct {
 	// HTTPCache > 0: the upstream (a DoH server behind an HTTP cache) adds Age /
 	// Cache-Control headers to its replies, drawn per request from the value.
 	HTTPCache uint64 `json:"http_cache,omitempty"`
+	// NegSOA: answers without records carry the zone's SOA in the authority
+	// section (TTL 7200, MINIMUM 86400).
+	NegSOA bool `json:"neg_soa,omitempty"`
 }
 
 var seqHosts = []string{"a.test", "b.test", "c.d.test", "e.test"}
@@ -569,6 +579,7 @@ func genC16(seed uint64, idx int) *Plan {
 	if idx%8 == 6 {
 		p.HTTPCache = 1 + r.Uint64()>>1
 	}
+	p.NegSOA = idx%8 == 4
 	lat := time.Duration(p.LatencyUs) * time.Microsecond
 	var ttls []int64
 	for _, n := range p.Names {
@@ -632,6 +643,13 @@ func executeSeq(t *testing.T, prop string, pl *Plan) *core.Result {
 			st[i] = nameState{version: version, ttls: p.Names[i].TTLs}
 		}
 		fault := ""
+		buildZone := func(names []SeqName, st []nameState, fault string) *simdoh.Zone {
+			z := buildZone(names, st, fault)
+			if p.NegSOA {
+				z.NegSOA, z.NegSOATTL, z.NegSOAMin = true, 7200, 86400
+			}
+			return z
+		}
 		srv := simdoh.NewServer(buildZone(p.Names, st, fault))
 		srv.PadTo = 128
 		lat := time.Duration(p.LatencyUs) * time.Microsecond
@@ -875,6 +893,9 @@ type ConcPlan struct {
 	// only moves when every goroutine sleeps). Judged by the race detector and
 	// the panic / leak monitors only: ages are not comparable across the two clocks.
 	MovingClock bool `json:"moving_clock,omitempty"`
+	// CancelPct: that share of the calls has its context cancelled by another
+	// goroutine a PRNG number of scheduler yields after the call began.
+	CancelPct int `json:"cancel_pct,omitempty"`
 }
 
 func genConc(seed uint64, r *rand.Rand) *Plan {
@@ -897,6 +918,12 @@ func genConc(seed uint64, r *rand.Rand) *Plan {
 	p.YieldPct = core.Pick(r, []int{0, 10, 50, 90})
 	p.CacheSize = core.Pick(r, []int{-1, -1, -1, 2, 64})
 	p.Networks = core.Pick(r, [][]string{{"tcp"}, {"tcp", "tcp4"}, {"tcp6", "udp"}, {"tcp", "tcp", "tcp4", "tcp6"}})
+	if core.Chance(r, 1, 3) {
+		p.CancelPct = core.Pick(r, []int{10, 30, 60})
+		if p.YieldPct == 0 {
+			p.YieldPct = 50
+		}
+	}
 	if core.Chance(r, 1, 3) {
 		p.MovingClock = true
 		p.SleepMs = []int{0}
@@ -1003,7 +1030,19 @@ func executeConc(t *testing.T, prop string, pl *Plan) *core.Result {
 					c := callRec{g: g, name: ni, t0: srv.Now(), c0: srv.Tick()}
 					var rr ech.ResolveResult
 					var panicked bool
-					panicked, c.panicMsg, c.panicAt = core.Guard(func() { rr, c.err = rs.Resolve(context.Background(), p.Names[ni].Host) })
+					ctx, cancel := context.WithCancel(context.Background())
+					if p.CancelPct > 0 && r.IntN(100) < p.CancelPct {
+						c.cancelled = true
+						n := r.IntN(12)
+						go func() {
+							for i := 0; i < n; i++ {
+								runtime.Gosched()
+							}
+							cancel()
+						}()
+					}
+					panicked, c.panicMsg, c.panicAt = core.Guard(func() { rr, c.err = rs.Resolve(ctx, p.Names[ni].Host) })
+					cancel()
 					c.t1, c.c1 = srv.Now(), srv.Tick()
 					if !panicked && c.err == nil {
 						c.obs = observe(p.Names, ni, rr)
